@@ -81,6 +81,7 @@ where
             buffer.reserve(0x400_usize.saturating_sub(unused));
             buffer.extend(repeat_n(0, buffer.capacity() - buffer.len()));
 
+            this.ensure_nonblocking();
             match this.inner.read(fd, &mut buffer[effective_length..]).await {
                 Ok(0) => {
                     buffer.truncate(effective_length);
@@ -154,6 +155,7 @@ where
         loop {
             #[cfg(feature = "verif-hooks")]
             crate::verif_hooks::preempt_point("concurrent.write_all").await;
+            this.ensure_nonblocking();
             match this.inner.write(fd, data).await {
                 #[allow(
                     unreachable_patterns,
